@@ -1,6 +1,16 @@
 // C04 — slices select and assign exactly the numpy-designated elements.
 // Correspondence cases for the Lean model (Gen.BaseSlice.ctor + Model/Slice) and the property's
 // own oracle (Python's slice rule, "copy source first" assignment) on the real code.
+//
+// Two families of cases:
+//  * position-coded (x[i] = i): tags slice / sliceL / copy / asg / asgv — the exhaustive small boxes;
+//  * value-carrying (tags asgX / asgXL / asgvX / asgvXL, keys *-bits): array cells are arbitrary IEEE bit
+//    patterns (signed zeros, denormals, NaNs, infinities, 1e-300 … 1e100, runs of zeros) and everything is
+//    compared BIT FOR BIT (NaN payload-agnostic).  They also carry the LARGE scenarios: same-array
+//    overlapping (dst, src) pairs with 10^2 … 10^5 elements in every stride-sign combination and overlap
+//    geometry (forced collisions "destination cell j is source cell k" with j<k, j>k at gaps from 1 to
+//    count-1), random assignments of every right-hand-side kind on arrays up to 10^5, value-category
+//    variants (named slice objects, copies of them, temporaries) and histories with failed calls.
 #include "common.hpp"
 using namespace dsplib;
 using vh::Out;
@@ -187,9 +197,9 @@ static void case_assign_slice(int n, int d1, int d2, int dm, int same, int n2, i
 }
 
 template<class T>
-static void apply_list(slice_t<T> s, int len) {
-    auto v = [](int i) { return mk<T>(200 + i); };
-    switch (len) {
+static void apply_list(slice_t<T> s, const std::vector<T>& w) {
+    auto v = [&](int i) { return w[size_t(i)]; };
+    switch (int(w.size())) {
     case 0: s = std::initializer_list<T>{}; break;
     case 1: s = {v(0)}; break;
     case 2: s = {v(0), v(1)}; break;
@@ -206,6 +216,12 @@ static void apply_list(slice_t<T> s, int len) {
     case 13: s = {v(0), v(1), v(2), v(3), v(4), v(5), v(6), v(7), v(8), v(9), v(10), v(11), v(12)}; break;
     default: s = {v(0), v(1), v(2), v(3), v(4), v(5), v(6), v(7), v(8), v(9), v(10), v(11), v(12), v(13)}; break;
     }
+}
+template<class T>
+static void apply_list(slice_t<T> s, int len) {
+    std::vector<T> w;
+    for (int i = 0; i < std::min(len, 14); ++i) w.push_back(mk<T>(200 + i));
+    apply_list<T>(s, w);
 }
 
 // rhs kind: 0 scalar, 1 array of length len, 2 initializer list of length len (0..14)
@@ -245,6 +261,461 @@ static void case_assign_value(int n, int d1, int d2, int dm, int kind, int len) 
     else {
         out.stat("assign_value_count_mismatch");
         if (ok || !eq) out.fail("C04:assign-count-mismatch", js);
+    }
+}
+
+// ================================================================ value-carrying cases (bit for bit)
+static const uint64_t POOL[32] = {
+    0x0000000000000000ULL, 0x8000000000000000ULL, 0x0000000000000001ULL, 0x8000000000000001ULL,   // +0 -0 +-min denormal
+    0x000fffffffffffffULL, 0x800fffffffffffffULL, 0x0010000000000000ULL, 0x8010000000000000ULL,   // +-max denormal, +-DBL_MIN
+    0x7fefffffffffffffULL, 0xffefffffffffffffULL, 0x7ff0000000000000ULL, 0xfff0000000000000ULL,   // +-DBL_MAX, +-inf
+    0x7ff8000000000000ULL, 0xfff8000000000001ULL, 0x7ff0000000000001ULL, 0x7ff4000000abcdefULL,   // quiet / signalling NaNs with payloads
+    0x3ff0000000000000ULL, 0xbff0000000000000ULL, 0x3ff0000000000001ULL, 0x3fefffffffffffffULL,   // +-1, 1+ulp, 1-ulp
+    0x01a56e1fc2f8f359ULL, 0x3c670ef54646d497ULL, 0x3e45798ee2308c3aULL, 0x4197d78400000000ULL,   // 1e-300 1e-17 1e-8 1e8
+    0x54b249ad2594c37dULL, 0xd4b249ad2594c37dULL, 0x4330000000000000ULL, 0x4340000000000001ULL,   // +-1e100, 2^52, 2^53+2
+    0x3fb999999999999aULL, 0x401e000000000000ULL, 0xc059000000000000ULL, 0x0008000000000000ULL};  // 0.1 7.5 -100 denormal 2^-1023
+static const int RPOOL[8] = {0, 1, 2, 16, 12, 11, 15, 25};   // reduced pool for complex component pairs
+
+static uint64_t mix64(uint64_t z) {
+    z = (z ^ (z >> 30)) * 0xbf58476d1ce4e5b9ULL;
+    z = (z ^ (z >> 27)) * 0x94d049bb133111ebULL;
+    return z ^ (z >> 31);
+}
+static uint64_t hash2(uint64_t seed, uint64_t i) { return mix64(seed * 0x9e3779b97f4a7c15ULL + i * 0xd1b54a32d192ed03ULL + 0x632be59bd9b4e019ULL); }
+// 1/4 special values, 3/4 arbitrary 64-bit patterns
+static uint64_t valbits(uint64_t seed, uint64_t i) {
+    const uint64_t h = hash2(seed, i);
+    return (h & 3) == 0 ? POOL[(h >> 2) % 32] : h;
+}
+// runs of +0 / -0 (37 cells each, longer than any staging buffer's alignment unit) with 1/16 other values
+static uint64_t zerorun(uint64_t seed, uint64_t i) {
+    const uint64_t h = hash2(seed, i);
+    if ((h & 15) == 0) return valbits(seed + 77, i);
+    return ((i / 37 + seed) & 1) ? 0x8000000000000000ULL : 0;
+}
+static uint64_t cellbits(int mode, uint64_t seed, uint64_t i) { return mode == 2 ? zerorun(seed, i) : valbits(seed, i); }
+static double fb(uint64_t b) { double d; std::memcpy(&d, &b, 8); return d; }
+static uint64_t bf(double d) { uint64_t b; std::memcpy(&b, &d, 8); return b; }
+static uint64_t canon(uint64_t b) {
+    return ((b & 0x7ff0000000000000ULL) == 0x7ff0000000000000ULL && (b & 0x000fffffffffffffULL)) ? 0x7ff8000000000000ULL : b;
+}
+static bool beq(real_t a, real_t b) { return canon(bf(a)) == canon(bf(b)); }
+static bool beq(const cmplx_t& a, const cmplx_t& b) { return beq(a.re, b.re) && beq(a.im, b.im); }
+
+// cell i of array `which` (0: the array that is sliced/assigned, 1: the other array / right-hand side)
+// mode 0: position-coded, 1: arbitrary bit patterns, 2: zero runs
+template<class T> T content(int mode, uint64_t seed, int which, int i);
+template<> real_t content<real_t>(int mode, uint64_t seed, int which, int i) {
+    if (mode == 0) return which == 0 ? real_t(i) : real_t(-1 - i);
+    return fb(cellbits(mode, seed * 2 + uint64_t(which), uint64_t(i)));
+}
+template<> cmplx_t content<cmplx_t>(int mode, uint64_t seed, int which, int i) {
+    if (mode == 0) return which == 0 ? cmplx_t(double(i), double(-i)) : cmplx_t(double(-1 - i), double(1 + i));
+    const uint64_t s = seed * 2 + uint64_t(which);
+    return cmplx_t(fb(cellbits(mode, s, 2 * uint64_t(i))), fb(cellbits(mode, s, 2 * uint64_t(i) + 1)));
+}
+template<class T> base_array<T> mkarr(int mode, uint64_t seed, int which, int n) {
+    base_array<T> x(n);
+    for (int i = 0; i < n; ++i) x[i] = content<T>(mode, seed, which, i);
+    return x;
+}
+static std::string btok(uint64_t b) {
+    char s[24];
+    std::snprintf(s, sizeof s, "b%016llx", (unsigned long long)canon(b));
+    return s;
+}
+static std::string btok(real_t v) { return btok(bf(v)); }
+static std::string btoks(real_t v) { return btok(bf(v)) + " " + btok(uint64_t(0)); }
+static std::string btoks(const cmplx_t& v) { return btok(bf(v.re)) + " " + btok(bf(v.im)); }
+static void feed(uint64_t& cs, real_t v) { cs = cs * 0x100000001b3ULL + canon(bf(v)) + 1; }
+static void feed(uint64_t& cs, const cmplx_t& v) { feed(cs, v.re); feed(cs, v.im); }
+static void tok(std::string& s, real_t v) { s += " " + btok(v); }
+static void tok(std::string& s, const cmplx_t& v) { s += " " + btok(v.re) + " " + btok(v.im); }
+static const int XSMALL = 24;   // arrays up to this length are written out cell by cell, longer ones as a digest
+template<class T> std::string bdump(const base_array<T>& x) {
+    std::string s = std::to_string(x.size());
+    if (x.size() <= XSMALL) { for (int i = 0; i < x.size(); ++i) tok(s, x[i]); return s; }
+    uint64_t cs = 0xcbf29ce484222325ULL;
+    for (int i = 0; i < x.size(); ++i) feed(cs, x[i]);
+    return s + " " + std::to_string((unsigned long long)cs);
+}
+template<class T> bool same_cells(const base_array<T>& a, const base_array<T>& b) {
+    if (a.size() != b.size()) return false;
+    for (int i = 0; i < a.size(); ++i) if (!beq(a[i], b[i])) return false;
+    return true;
+}
+
+static uint64_t re_bits(real_t v) { return bf(v); }
+static uint64_t re_bits(const cmplx_t& v) { return bf(v.re); }
+template<class T> T pool_value(int a, int b);
+template<> real_t pool_value<real_t>(int a, int) { return fb(POOL[a & 31]); }
+template<> cmplx_t pool_value<cmplx_t>(int a, int b) { return cmplx_t(fb(POOL[a & 31]), fb(POOL[b & 31])); }
+
+struct Tri { int i1, i2, m; };
+
+// a spelling (i1, i2, m) of the slice of an n-array that starts at `first`, has `c` >= 1 elements and stride m
+// (precondition: all positions in [0, n), and last >= 1 for m < 0); stop and signs of the indices are varied
+static Tri tri_of(long first, long c, long m, long n, vh::Rng& rng) {
+    const long last = first + (c - 1) * m;
+    long i2;
+    if (m > 0) { const long hi = std::min(last + m, n); i2 = (rng.next() % 3 == 0) ? rng.range(int(last + 1), int(hi)) : (rng.coin() ? last + 1 : hi); }
+    else { const long lo = std::max(last + m, 0L); i2 = (rng.next() % 3 == 0) ? rng.range(int(lo), int(last - 1)) : (rng.coin() ? last - 1 : lo); }
+    long i1 = first;
+    if (rng.next() % 4 == 0) i1 -= n;
+    if (i2 < n && rng.next() % 4 == 0) i2 -= n;
+    return Tri{int(i1), int(i2), int(m)};
+}
+// random slice with c elements and stride m inside an n-array; false if it does not fit
+static bool make_fit(long n, long c, long m, vh::Rng& rng, Tri& out_) {
+    if (n <= 0 || m == 0) return false;
+    if (c == 0) { const int a = rng.range(0, int(n - 1)); out_ = Tri{a, a, int(m)}; return true; }
+    const long span = (c - 1) * std::labs(m);   // last - first in absolute value
+    if (m > 0) {
+        if (span > n - 1) return false;
+        const long lo = (rng.next() % 3 == 0) ? 0 : ((rng.next() % 3 == 0) ? n - 1 - span : rng.range(0, int(n - 1 - span)));
+        out_ = tri_of(lo, c, m, n, rng);
+    } else {
+        if (span + 1 > n - 1) return false;       // the last position must be >= 1 (the stop index cannot be "-1")
+        const long lastp = (rng.next() % 3 == 0) ? 1 : ((rng.next() % 3 == 0) ? n - 1 - span : rng.range(1, int(n - 1 - span)));
+        out_ = tri_of(lastp + span, c, m, n, rng);
+    }
+    return true;
+}
+
+// ---------------------------------------------------------------- slice = slice, value-carrying
+// via: 0 mutable source slice (operator=(const slice_t&)), 1 const source slice, 2 named slice objects and copies of
+//      them (lvalues), 3 source materialised into a temporary array first, 4 source materialised through operator*
+template<class T>
+static void case_assign_slice_x(int mode, uint64_t seed, int n, Tri d, int same, int n2, Tri s, int via) {
+    const bool cplx = is_complex_v<T>;
+    const int ns = same ? n : n2;
+    if (may_throw(n, d.i1, d.i2, d.m) || may_throw(ns, s.i1, s.i2, s.m)) return;
+    const auto di = py_indices(n, d.i1, d.i2, d.m), si = py_indices(ns, s.i1, s.i2, s.m);
+    if (via >= 3 && si.empty()) via = 1;   // an empty temporary array cannot be sliced (listed throwing situation)
+    const std::string js = spec("assign_slice_x", {cplx ? 1 : 0, mode, long(seed), n, d.i1, d.i2, d.m, same, n2, s.i1, s.i2, s.m, via});
+    base_array<T> x = mkarr<T>(mode, seed, 0, n);
+    base_array<T> other = mkarr<T>(mode, seed, 1, same ? 0 : n2);
+    const base_array<T> before = x;
+    base_array<T>& srcarr = same ? x : other;
+    const base_array<T>& csrc = srcarr;
+    vh::set_current("C04:crash:assign_slice_x", js);
+    bool ok = true;
+    try {
+        switch (via) {
+        case 0: x.slice(d.i1, d.i2, d.m) = srcarr.slice(s.i1, s.i2, s.m); break;
+        case 1: x.slice(d.i1, d.i2, d.m) = csrc.slice(s.i1, s.i2, s.m); break;
+        case 2: {
+            slice_t<T> ds = x.slice(d.i1, d.i2, d.m);
+            slice_t<T> ds2(ds);
+            const_slice_t<T> ss = csrc.slice(s.i1, s.i2, s.m);
+            const_slice_t<T> ss2(ss);
+            ds2 = ss2;
+            break;
+        }
+        case 3: x.slice(d.i1, d.i2, d.m) = base_array<T>(csrc.slice(s.i1, s.i2, s.m)); break;
+        default: x.slice(d.i1, d.i2, d.m) = *srcarr.slice(s.i1, s.i2, s.m); break;
+        }
+    } catch (const std::exception&) { ok = false; }
+    vh::clear_current();
+    out.corr(std::string(n > XSMALL ? "asgXL " : "asgX ") + std::to_string(cplx ? 1 : 0) + " " + std::to_string(mode) + " " + std::to_string((unsigned long long)seed) + " " +
+                 std::to_string(n) + " " + std::to_string(d.i1) + " " + std::to_string(d.i2) + " " + std::to_string(d.m) + " " + std::to_string(same) + " " +
+                 std::to_string(n2) + " " + std::to_string(s.i1) + " " + std::to_string(s.i2) + " " + std::to_string(s.m) + " " + std::to_string(via),
+             ok ? bdump(x) : "ERR");
+    out.n_oracle++;
+    const char* sz = di.size() > 65536 ? "64k_plus" : di.size() > 4096 ? "4k_64k" : di.size() > 512 ? "512_4k" : di.size() > 8 ? "9_512" : "0_8";
+    if (di.size() != si.size()) {
+        out.stat("x_assign_slice_count_mismatch");
+        if (ok || !same_cells(x, before)) out.fail("C04:assign-count-mismatch", js);
+        return;
+    }
+    out.stat(std::string("x_assign_slice_") + (same ? "same" : "other") + "_count_" + sz);
+    out.stat("x_assign_slice_via" + std::to_string(via));
+    out.stat("x_assign_slice_strides_" + std::string(d.m == 1 ? "u" : d.m > 0 ? "p" : d.m == -1 ? "r" : "n") + std::string(s.m == 1 ? "u" : s.m > 0 ? "p" : s.m == -1 ? "r" : "n"));
+    if (same) {
+        // which plain element-by-element orders would be wrong here (destination cell j is source cell k)?
+        std::vector<int> rank(size_t(n), -1);
+        for (size_t k = 0; k < si.size(); ++k) rank[size_t(si[k])] = int(k);
+        bool fwd = false, bwd = false, any = false;
+        long maxgap = 0;
+        for (size_t j = 0; j < di.size(); ++j) {
+            const int k = rank[size_t(di[j])];
+            if (k < 0) continue;
+            any = true;
+            if (k > int(j)) { fwd = true; maxgap = std::max(maxgap, long(k) - long(j)); }
+            if (k < int(j)) bwd = true;
+        }
+        if (any) out.stat("x_overlapping");
+        if (fwd) out.stat("x_overlap_hazard_forward_order");
+        if (bwd) out.stat("x_overlap_hazard_backward_order");
+        if (fwd && bwd) out.stat("x_overlap_hazard_both_orders");
+        if (fwd) out.stat(std::string("x_hazard_gap_") + (maxgap > 65536 ? "64k_plus" : maxgap > 4096 ? "4k_64k" : maxgap > 512 ? "512_4k" : maxgap > 8 ? "9_512" : "1_8"));
+    }
+    base_array<T> want = before;
+    {
+        std::vector<T> vals;
+        vals.reserve(si.size());
+        for (int j : si) vals.push_back(same ? before[j] : other[j]);   // copy the source first
+        for (size_t j = 0; j < di.size(); ++j) want[di[j]] = vals[j];
+    }
+    if (!ok || !same_cells(x, want)) out.fail(mode == 0 ? "C04:assign-slice" : "C04:assign-slice-bits", js);
+    if (out.n_cases % 5003 == 0) out.sample(js);
+}
+
+// ---------------------------------------------------------------- slice = scalar / array / list, value-carrying
+// kind: 0 scalar, 1 named array, 2 braced list (len <= 14), 3 temporary array
+template<class T>
+static void case_assign_value_x(int mode, uint64_t seed, int n, Tri d, int kind, int len, T scalar) {
+    const bool cplx = is_complex_v<T>;
+    if (may_throw(n, d.i1, d.i2, d.m)) return;
+    if (kind == 2 && len > 14) return;
+    const std::string js = "{\"op\":\"assign_value_x\",\"args\":[" + std::to_string(cplx ? 1 : 0) + "," + std::to_string(mode) + "," + std::to_string((unsigned long long)seed) + "," +
+                           std::to_string(n) + "," + std::to_string(d.i1) + "," + std::to_string(d.i2) + "," + std::to_string(d.m) + "," + std::to_string(kind) + "," + std::to_string(len) +
+                           "],\"scalar_bits\":\"" + btoks(scalar) + "\"}";
+    base_array<T> x = mkarr<T>(mode, seed, 0, n);
+    const base_array<T> before = x;
+    const base_array<T> r = mkarr<T>(mode, seed, 1, kind == 0 ? 0 : len);
+    const auto di = py_indices(n, d.i1, d.i2, d.m);
+    vh::set_current("C04:crash:assign_value_x", js);
+    bool ok = true;
+    try {
+        if (kind == 0) x.slice(d.i1, d.i2, d.m) = scalar;
+        else if (kind == 1) x.slice(d.i1, d.i2, d.m) = r;
+        else if (kind == 3) x.slice(d.i1, d.i2, d.m) = mkarr<T>(mode, seed, 1, len);
+        else {
+            std::vector<T> w;
+            for (int i = 0; i < len; ++i) w.push_back(r[i]);
+            apply_list<T>(x.slice(d.i1, d.i2, d.m), w);
+        }
+    } catch (const std::exception&) { ok = false; }
+    vh::clear_current();
+    out.corr(std::string(n > XSMALL ? "asgvXL " : "asgvX ") + std::to_string(cplx ? 1 : 0) + " " + std::to_string(mode) + " " + std::to_string((unsigned long long)seed) + " " +
+                 std::to_string(n) + " " + std::to_string(d.i1) + " " + std::to_string(d.i2) + " " + std::to_string(d.m) + " " + std::to_string(kind) + " " + std::to_string(len) + " " + btoks(scalar),
+             ok ? bdump(x) : "ERR");
+    out.n_oracle++;
+    out.stat("x_assign_value_kind" + std::to_string(kind));
+    if (kind == 0) {
+        const uint64_t b = re_bits(scalar);
+        out.stat(b == 0x8000000000000000ULL ? "x_scalar_negzero_re" : b == 0 ? "x_scalar_poszero_re" : canon(b) != b || b == 0x7ff8000000000000ULL ? "x_scalar_nan_re" : "x_scalar_other_re");
+        if (std::abs(d.m) == 1) out.stat("x_scalar_unit_stride");
+    }
+    const bool count_ok = (kind == 0) || (int(di.size()) == len);
+    base_array<T> want = before;
+    if (count_ok) for (size_t j = 0; j < di.size(); ++j) want[di[j]] = (kind == 0) ? scalar : r[int(j)];
+    const bool eq = same_cells(x, want);
+    if ((kind == 1 || kind == 3) && len == 0) { if (!eq) out.fail("C04:assign-value-bits", js); }   // empty array: may throw, must not write
+    else if (count_ok) { if (!ok || !eq) out.fail(mode == 0 ? "C04:assign-value" : "C04:assign-value-bits", js); }
+    else {
+        out.stat("x_assign_value_count_mismatch");
+        if (ok || !eq) out.fail("C04:assign-count-mismatch", js);
+    }
+    if (out.n_cases % 5003 == 0) out.sample(js);
+}
+
+// ---------------------------------------------------------------- reading, value-carrying (oracle only)
+// conversion to an array, operator*, and iteration over the slice object must deliver the designated cells bit for bit
+template<class T>
+static void case_read_x(int mode, uint64_t seed, int n, Tri d) {
+    if (may_throw(n, d.i1, d.i2, d.m)) return;
+    const bool cplx = is_complex_v<T>;
+    const std::string js = spec("read_x", {cplx ? 1 : 0, mode, long(seed), n, d.i1, d.i2, d.m});
+    base_array<T> x = mkarr<T>(mode, seed, 0, n);
+    const base_array<T> before = x;
+    const base_array<T>& cx = x;
+    const auto di = py_indices(n, d.i1, d.i2, d.m);
+    vh::set_current("C04:crash:read_x", js);
+    bool ok = true, eq = true;
+    try {
+        const base_array<T> y1(cx.slice(d.i1, d.i2, d.m));
+        const base_array<T> y2 = *x.slice(d.i1, d.i2, d.m);
+        std::vector<T> y3, y4;
+        for (const auto& v : cx.slice(d.i1, d.i2, d.m)) y3.push_back(v);
+        auto sl = x.slice(d.i1, d.i2, d.m);
+        const auto sl_end = sl.end();   // (end() walks the whole slice: O(count))
+        for (auto it = sl.begin(); it != sl_end; ++it) y4.push_back(*it);
+        eq = y1.size() == int(di.size()) && y2.size() == int(di.size()) && y3.size() == di.size() && y4.size() == di.size();
+        for (size_t j = 0; eq && j < di.size(); ++j)
+            eq = beq(y1[int(j)], before[di[j]]) && beq(y2[int(j)], before[di[j]]) && beq(y3[j], before[di[j]]) && beq(y4[j], before[di[j]]);
+    } catch (const std::exception&) { ok = false; }
+    vh::clear_current();
+    out.n_oracle++;
+    out.stat("x_read_cases");
+    if (!ok || !eq || !same_cells(x, before)) out.fail("C04:read-bits", js);
+}
+
+// ---------------------------------------------------------------- generators of the large scenarios
+static int pick_count(vh::Rng& rng, int cmax) {
+    int c;
+    switch (rng.next() % 8) {
+    case 0: c = (1 << rng.range(8, 17)) + rng.range(-1, 1); break;                       // 2^k - 1, 2^k, 2^k + 1
+    case 1: c = rng.range(1, 64) * (rng.coin() ? 512 : 1024) + rng.range(-1, 1); break;  // around multiples of typical block sizes
+    case 2: c = rng.range(1, 3) * (rng.coin() ? 49152 : 65536) + rng.range(-1, 1); break;
+    case 3: c = rng.range(1, 300); break;
+    default: c = int(300.0 * std::exp(rng.unit() * std::log(double(cmax) / 300.0))); break;   // log-uniform 300 .. cmax
+    }
+    return std::max(1, std::min(c, cmax));
+}
+static int pick_stride(vh::Rng& rng) {
+    static const int mags[] = {1, 1, 1, 2, 2, 3, 4, 5, 7, 16, 33};
+    const int m = mags[rng.next() % (sizeof mags / sizeof mags[0])];
+    return rng.coin() ? m : -m;
+}
+// same-array pair with a FORCED collision: destination cell j0 is source cell k0 (j0 < k0: an element-by-element copy
+// in forward order would read an already overwritten cell; j0 > k0: the same for backward order; gaps at every scale)
+template<class T>
+static void big_pair(vh::Rng& rng, int cmax, long nmax, long forced_count = 0) {
+    for (int attempt = 0; attempt < 100; ++attempt) {
+        long c = forced_count ? forced_count : pick_count(rng, cmax);
+        const long dm = pick_stride(rng), sm = pick_stride(rng);
+        if (forced_count && (c - 1) * std::max(std::labs(dm), std::labs(sm)) * 2 + 32 > nmax) continue;   // other strides
+        while (c > 1 && (c - 1) * std::max(std::labs(dm), std::labs(sm)) * 2 + 32 > nmax) c /= 2;
+        long g;
+        switch (rng.next() % 10) {
+        case 0: g = 0; break;
+        case 1: g = 1; break;
+        case 2: g = rng.range(2, 64); break;
+        case 3: g = rng.range(500, 530); break;
+        case 4: g = rng.range(1000, 1050); break;
+        case 5: g = (1L << rng.range(9, 17)) + rng.range(-2, 2); break;
+        case 6: g = c / 2 + rng.range(-2, 2); break;
+        case 7: g = c - 1 - rng.range(0, 3); break;
+        default: g = rng.range(0, int(c - 1)); break;
+        }
+        g = std::max(0L, std::min(g, c - 1));
+        const long a = rng.range(0, int(c - 1 - g));
+        long j0 = a, k0 = a + g;
+        if (rng.next() % 3 == 0) std::swap(j0, k0);        // 2/3 forward-order hazards, 1/3 backward-order
+        // source positions k*sm (k < c), destination positions D0 + j*dm with D0 + j0*dm == k0*sm
+        const long D0 = k0 * sm - j0 * dm;
+        const long mn = std::min(std::min(0L, (c - 1) * sm), std::min(D0, D0 + (c - 1) * dm));
+        const long mx = std::max(std::max(0L, (c - 1) * sm), std::max(D0, D0 + (c - 1) * dm));
+        const long pad = (dm > 0 && sm > 0 && rng.coin()) ? 0 : rng.range(1, 4);
+        const long n = mx - mn + 1 + pad + (rng.coin() ? 0 : rng.range(0, 9));
+        if (n > nmax) continue;
+        const long shift = pad - mn;
+        const Tri d = tri_of(D0 + shift, c, dm, n, rng), s = tri_of(shift, c, sm, n, rng);
+        const int mode = int(rng.next() % 3);
+        static const int vias[] = {0, 1, 1, 2, 0, 1, 2, 3, 4};
+        case_assign_slice_x<T>(mode, rng.next() >> 8, int(n), d, 1, int(n), s, vias[rng.next() % 9]);
+        return;
+    }
+}
+// assignment through a random valid slice `d` of an n-array: every right-hand-side kind, counts equal (mostly) or off by one
+template<class T>
+static void random_assign(vh::Rng& rng, int n, Tri d) {
+    if (may_throw(n, d.i1, d.i2, d.m)) return;
+    const long c = long(py_indices(n, d.i1, d.i2, d.m).size());
+    const int mode = 1 + int(rng.next() % 2);
+    const uint64_t seed = rng.next() >> 8;
+    const long cs = (rng.next() % 8 == 0) ? std::max(0L, c + (rng.coin() ? 1 : -1)) : c;   // count of the right-hand side
+    const T sc = rng.coin() ? content<T>(1, seed, 1, int(rng.next() % 1000)) : pool_value<T>(int(rng.next() % 32), rng.next() % 4 ? RPOOL[rng.next() % 8] : int(rng.next() % 32));
+    Tri s{0, 0, 1};
+    const int sel = int(rng.next() % 6);
+    switch (sel) {
+    case 0: case_assign_value_x<T>(mode, seed, n, d, 0, 0, sc); break;
+    case 1: case_assign_value_x<T>(mode, seed, n, d, rng.coin() ? 1 : 3, int(cs), sc); break;
+    case 2: {   // slice of another array
+        const int sm = pick_stride(rng);
+        const long n2 = (cs == 0 ? 1 : (cs - 1) * std::abs(sm) + 1) + (sm < 0 ? 1 : 0) + rng.range(0, 5);
+        if (n2 <= 400000 && make_fit(n2, cs, sm, rng, s)) case_assign_slice_x<T>(mode, seed, n, d, 0, int(n2), s, int(rng.next() % 5));
+        break;
+    }
+    case 3: case_read_x<T>(mode, seed, n, d); break;
+    default: {   // slice of the same array with the same count: random overlap
+        int sm = pick_stride(rng);
+        if (cs > 1 && (cs - 1) * long(std::abs(sm)) + 2 > n) sm = (sm < 0) ? -1 : 1;
+        if (make_fit(n, cs, sm, rng, s)) case_assign_slice_x<T>(mode, seed, n, d, 1, n, s, int(rng.next() % 5));
+        else case_assign_value_x<T>(mode, seed, n, d, 1, int(cs), sc);
+        break;
+    }
+    }
+}
+
+// ---------------------------------------------------------------- histories on ONE array (oracle only)
+// a run of assignments, valid ones and ones that throw (bad index, zero step, count mismatch, same array as right-hand
+// side): after every step the array must equal the shadow copy on which only the valid steps were replayed
+template<class T>
+static void history(vh::Rng& rng, int n, int steps) {
+    const bool cplx = is_complex_v<T>;
+    const uint64_t seed = rng.next() >> 8;
+    const uint64_t rng_at_start = rng.s;
+    base_array<T> x = mkarr<T>(1, seed, 0, n);
+    base_array<T> shadow = x;
+    out.stat("history_runs");
+    for (int st = 0; st < steps; ++st) {
+        const std::string js = "{\"op\":\"history\",\"args\":[" + std::to_string(cplx ? 1 : 0) + "," + std::to_string(n) + "," + std::to_string(steps) + "],\"rng_state\":\"" +
+                               std::to_string((unsigned long long)rng_at_start) + "\",\"failed_step\":" + std::to_string(st) + "}";
+        vh::set_current("C04:crash:history", js);
+        const int op = int(rng.next() % 8);
+        Tri d{0, 0, 1}, s{0, 0, 1};
+        const long c = (rng.next() % 4 == 0) ? rng.range(0, n) : rng.range(0, std::max(1, n / 3));
+        int dm = pick_stride(rng), sm = pick_stride(rng);
+        if (c > 1 && (c - 1) * long(std::abs(dm)) + 2 > n) dm = dm < 0 ? -1 : 1;
+        if (c > 1 && (c - 1) * long(std::abs(sm)) + 2 > n) sm = sm < 0 ? -1 : 1;
+        if (!make_fit(n, c, dm, rng, d) || !make_fit(n, c, sm, rng, s)) { vh::clear_current(); continue; }
+        const auto di = py_indices(n, d.i1, d.i2, d.m), si = py_indices(n, s.i1, s.i2, s.m);
+        bool threw = false, expect_throw = false;
+        try {
+            switch (op) {
+            case 0: {   // scalar
+                const T v = content<T>(1, seed + uint64_t(st), 1, st);
+                x.slice(d.i1, d.i2, d.m) = v;
+                for (int p : di) shadow[p] = v;
+                break;
+            }
+            case 1: {   // same-array slice
+                std::vector<T> vals;
+                for (int p : si) vals.push_back(shadow[p]);
+                for (size_t j = 0; j < di.size(); ++j) shadow[di[j]] = vals[j];
+                if (rng.coin()) x.slice(d.i1, d.i2, d.m) = x.slice(s.i1, s.i2, s.m);
+                else { const base_array<T>& cx = x; x.slice(d.i1, d.i2, d.m) = cx.slice(s.i1, s.i2, s.m); }
+                break;
+            }
+            case 2: {   // array of the right length
+                if (c == 0) break;
+                const base_array<T> r = mkarr<T>(2, seed + uint64_t(st), 1, int(c));
+                for (size_t j = 0; j < di.size(); ++j) shadow[di[j]] = r[int(j)];
+                x.slice(d.i1, d.i2, d.m) = r;
+                break;
+            }
+            case 3: expect_throw = true; x.slice(d.i1, d.i2, d.m) = mkarr<T>(1, seed, 1, int(c) + 1 + int(rng.next() % 3)); break;      // longer array
+            case 4: {   // same-array slice with one element more or fewer
+                Tri s2{0, 0, 1};
+                const long c2 = (c > 0 && rng.coin()) ? c - 1 : c + 1;
+                if (!make_fit(n, c2, (c2 > 1 && (c2 - 1) * long(std::abs(sm)) + 2 > n) ? 1 : sm, rng, s2)) break;
+                expect_throw = true;
+                x.slice(d.i1, d.i2, d.m) = x.slice(s2.i1, s2.i2, s2.m);
+                break;
+            }
+            case 5: {   // invalid slice on either side
+                expect_throw = true;
+                switch (rng.next() % 4) {
+                case 0: x.slice(n, n, 1) = content<T>(1, seed, 1, 0); break;
+                case 1: x.slice(d.i1, d.i2, 0) = content<T>(1, seed, 1, 0); break;
+                case 2: x.slice(d.i1, d.i2, d.m) = x.slice(0, n + 1, 1); break;
+                default: x.slice(d.i1, d.i2, d.m) = x.slice(-n - 1, 0, -1); break;
+                }
+                break;
+            }
+            case 6: {   // braced list with the wrong / right count
+                const T v = content<T>(1, seed + uint64_t(st), 1, st);
+                if (c == 2) { shadow[di[0]] = v; shadow[di[1]] = v; } else expect_throw = true;
+                x.slice(d.i1, d.i2, d.m) = {v, v};
+                break;
+            }
+            default: {  // other-array slice
+                if (c == 0) break;
+                const base_array<T> r = mkarr<T>(1, seed + uint64_t(st), 1, int(c) * 2 + 1);
+                for (size_t j = 0; j < di.size(); ++j) shadow[di[j]] = r[int(2 * j)];
+                x.slice(d.i1, d.i2, d.m) = r.slice(0, int(2 * c), 2);
+                break;
+            }
+            }
+        } catch (const std::exception&) { threw = true; }
+        vh::clear_current();
+        out.n_oracle++;
+        out.stat(expect_throw ? "history_steps_throwing" : "history_steps_valid");
+        if (threw != expect_throw) { out.fail("C04:history-throw", js); if (threw) shadow = x; }
+        if (!same_cells(x, shadow)) { out.fail("C04:history", js); return; }
     }
 }
 
@@ -316,9 +787,119 @@ int main(int argc, char** argv) {
             case 4: return rng.range(hi - 2, hi + 2); default: return rng.range(lo, hi);
             }
         };
-        const int i1 = pick(-n, n - 1), i2 = pick(-n, n);
+        int i1 = pick(-n, n - 1), i2 = pick(-n, n);
         int m = (rng.next() % 4 == 0) ? rng.range(-n - 2, n + 2) : rng.range(-7, 7);
+        // extreme arguments inside the box |i1|, |i2| <= 2^30 of theorem no_overflow: huge strides (count <= 1), far-out indices (throw)
+        if (rng.next() % 40 == 0) {
+            static const int xm[] = {2147483647, -2147483647, 2147483646, 1 << 30, -(1 << 30), (1 << 30) - 1, 65536, -65537, 46341, -46341};
+            m = xm[rng.next() % 10];
+            out.stat("slice_extreme_stride");
+        }
+        if (rng.next() % 80 == 0) { (rng.coin() ? i1 : i2) = rng.coin() ? (1 << 30) : -(1 << 30); out.stat("slice_extreme_index"); }
         case_slice(int(rng.next() % 4), n, i1, i2, m, false);
+        // ... and assignment through the same random slice (every right-hand-side kind, bit for bit)
+        if (r % 2 == 0 && n > 0 && m != 0 && (a.thorough || n <= 20000 || r % 3 == 0)) {
+            if (rng.next() % 3) random_assign<real_t>(rng, n, Tri{i1, i2, m});
+            else random_assign<cmplx_t>(rng, n, Tri{i1, i2, m});
+        }
+    }
+
+    // ================= value-carrying families (bit for bit)
+    // (a) all same-array pairs again with arbitrary bit patterns as contents and every way of spelling the assignment
+    const int NPX = a.thorough ? 7 : 5;
+    for (int n = 1; n <= NPX; ++n) {
+        const auto vs = valid(n);
+        for (auto& d : vs) {
+            if (d[0] < 0 || d[1] < 0) continue;
+            const auto dn = py_indices(n, d[0], d[1], d[2]).size();
+            for (auto& s : vs) {
+                if (s[0] < 0 || s[1] < 0) continue;
+                const auto sn = py_indices(n, s[0], s[1], s[2]).size();
+                if (dn != sn && (rng.next() % 32)) continue;
+                const uint64_t seed = rng.next() >> 8;
+                case_assign_slice_x<real_t>(1 + int(seed & 1), seed, n, Tri{d[0], d[1], d[2]}, 1, n, Tri{s[0], s[1], s[2]}, int(rng.next() % 5));
+                if (n <= NPX - 1) case_assign_slice_x<cmplx_t>(1 + int(seed & 1), seed, n, Tri{d[0], d[1], d[2]}, 1, n, Tri{s[0], s[1], s[2]}, int(rng.next() % 5));
+            }
+        }
+    }
+    // (b) EVERY special scalar through every destination slice: small arrays exhaustively ...
+    for (int n = 1; n <= (a.thorough ? 7 : 5); ++n) {
+        for (auto& d : valid(n)) {
+            if (n > 3 && (d[0] < 0 || d[1] < 0)) continue;
+            const uint64_t seed = rng.next() >> 8;
+            for (int k = 0; k < 32; ++k) case_assign_value_x<real_t>(1 + (k & 1), seed, n, Tri{d[0], d[1], d[2]}, 0, 0, pool_value<real_t>(k, 0));
+            for (int ka : RPOOL) for (int kb : RPOOL) case_assign_value_x<cmplx_t>(1 + (ka & 1), seed, n, Tri{d[0], d[1], d[2]}, 0, 0, pool_value<cmplx_t>(ka, kb));
+        }
+    }
+    //     ... and longer ones (fill fast paths may depend on the length and on the stride)
+    for (int n : {9, 16, 17, 31, 32, 33, 64, 100, 1000, 4096, 65537, 131075}) {
+        if (!a.thorough && n == 131075) continue;
+        std::vector<Tri> ds = {Tri{0, n, 1}, Tri{1, n - 1, 1}, Tri{n - 1, 0, -1}, Tri{0, n, 2}, Tri{n - 2, 1, -3}};
+        for (int rep = 0; rep < 2; ++rep) {
+            Tri e{0, 0, 1};
+            if (make_fit(n, rng.range(1, n / 2), pick_stride(rng) > 0 ? 1 : -1, rng, e)) ds.push_back(e);
+        }
+        for (const Tri& d : ds) {
+            const uint64_t seed = rng.next() >> 8;
+            for (int k = 0; k < 32; ++k) {
+                if (n > 4096 && k != 0 && k != 1 && k != 2 && k != 12 && k != 16) continue;
+                case_assign_value_x<real_t>(1 + (k & 1), seed, n, d, 0, 0, pool_value<real_t>(k, 0));
+            }
+            for (int ka : RPOOL) for (int kb : RPOOL) {
+                if (n > 4096 && (ka > 2 || kb > 2)) continue;
+                case_assign_value_x<cmplx_t>(1 + (kb & 1), seed, n, d, 0, 0, pool_value<cmplx_t>(ka, kb));
+            }
+        }
+    }
+    // (c) array / list / temporary-array / other-array-slice right-hand sides of every length relation
+    for (int n = 1; n <= (a.thorough ? 8 : 6); ++n) {
+        const auto vs = valid(n);
+        for (auto& d : vs) {
+            const int dn = int(py_indices(n, d[0], d[1], d[2]).size());
+            const Tri dt{d[0], d[1], d[2]};
+            for (int kind = 1; kind <= 3; ++kind)
+                for (int len : {0, 1, dn - 1, dn, dn + 1, 2 * dn, n + 3}) {
+                    if (len < 0) continue;
+                    const uint64_t seed = rng.next() >> 8;
+                    if (seed & 2) case_assign_value_x<real_t>(1 + int(seed & 1), seed, n, dt, kind, len, real_t(0));
+                    else case_assign_value_x<cmplx_t>(1 + int(seed & 1), seed, n, dt, kind, len, cmplx_t(0, 0));
+                }
+            const int n2 = 1 + int(rng.next() % 9);
+            const auto v2 = valid(n2);
+            for (int rep = 0; rep < 3; ++rep) {
+                auto& s = v2[rng.next() % v2.size()];
+                const uint64_t seed = rng.next() >> 8;
+                if (seed & 2) case_assign_slice_x<real_t>(1 + int(seed & 1), seed, n, dt, 0, n2, Tri{s[0], s[1], s[2]}, int(rng.next() % 5));
+                else case_assign_slice_x<cmplx_t>(1 + int(seed & 1), seed, n, dt, 0, n2, Tri{s[0], s[1], s[2]}, int(rng.next() % 5));
+            }
+        }
+    }
+    // (d) LARGE same-array overlapping pairs (counts 10^2 .. 10^5, all stride sign combinations, forced collisions)
+    {
+        // one pair in ten (thorough: in six) may be huge (up to 140000 / 300000 elements, arrays up to 600000 / 2000000 cells), the others stay below 20000 elements
+        const int NBP = a.thorough ? 6000 : 500;
+        // frames above 2^16 and 2^17 elements and multiples of 49152 / 65536 are always present
+        for (long c : {65537L, 131073L, 98304L, 65536L, 131072L}) {
+            for (int rep = 0; rep < (a.thorough ? 6 : 2); ++rep) {
+                big_pair<real_t>(rng, 140000, 600000, c);
+                if (c < 100000 || a.thorough) big_pair<cmplx_t>(rng, 140000, 600000, c);
+            }
+        }
+        for (int r = 0; r < NBP; ++r) {
+            const bool huge = a.thorough ? (r % 6 == 0) : (r % 10 == 0);
+            const int cmax = huge ? (a.thorough ? 300000 : 140000) : 20000;
+            const long nmax = huge ? (a.thorough ? 2000000 : 600000) : 150000;
+            if (r % 7 < 4) big_pair<real_t>(rng, cmax, nmax);
+            else big_pair<cmplx_t>(rng, cmax, nmax);
+        }
+    }
+    // (e) histories with failed calls on one array
+    for (int n : {7, 40, 1500, 70000}) {
+        const int runs = (n < 100 ? 12 : n < 10000 ? 6 : 2) * (a.thorough ? 10 : 1);
+        for (int r = 0; r < runs; ++r) {
+            history<real_t>(rng, n, n < 10000 ? 30 : 16);
+            history<cmplx_t>(rng, n, n < 10000 ? 30 : 16);
+        }
     }
     out.finish();
     return 0;
